@@ -10,7 +10,8 @@ import rulesets
 from props.C04 import collect, independent_product
 
 ID = "C17"
-TRUSTED = ["argparse, the OS pipe, codecs file writing", "in-process reference stream = real PcfgQueue over the Prince folder + create_guesses"]
+TRUSTED = ["argparse, the OS pipe, codecs file writing", "in-process reference stream = real PcfgQueue over the Prince folder + create_guesses",
+           "second tie (translator): harness/translate_expand.py (ast -> Gallina, fail closed; accepted subset and what it does not model in its docstring) and the meaning coq/theories/ExpandRt.v gives to Python subscripts, slices, `if limit:` and str methods; print_guess, MarkovCracker, int() and str.upper() of one character are parameters of the generated functions"]
 ASSUMES = ["N >= 1"]
 
 
